@@ -1421,7 +1421,10 @@ pub fn run(ctx: &mut Ctx) {
     // G5(b): long random histories over a small key pool (keys below and above the 23-byte inline limit)
     let mut r = ctx.rng("c11.random");
     for _ in 0..ctx.share(30_000, 1_500_000) {
-        let npool = r.range(2, 6);
+        // (one history in twelve works on a few dozen short keys, mostly inserting: searches
+        // that change strategy with the size of the collection)
+        let big = r.chance(1, 12);
+        let npool = if big { r.range(33, 80) } else { r.range(2, 6) };
         let mut pool: Vec<String> = Vec::new();
         for _ in 0..npool {
             // fresh keys, well-known keys, and near misses of keys already in the pool
@@ -1431,8 +1434,17 @@ pub fn run(ctx: &mut Ctx) {
             }
             pool.push(k);
         }
-        let n = r.range(10, 200);
-        let ops: Vec<QOp> = (0..n).map(|_| rand_op(&mut r, &pool)).collect();
+        let n = if big { r.range(100, 300) } else { r.range(10, 200) };
+        let ops: Vec<QOp> = (0..n)
+            .map(|_| {
+                if big && r.chance(2, 3) {
+                    let k = r.pick(&pool).clone();
+                    if r.chance(1, 4) { QOp::Get(k) } else { QOp::Insert(k, rand_val(&mut r)) }
+                } else {
+                    rand_op(&mut r, &pool)
+                }
+            })
+            .collect();
         ctx.st.count("random-histories");
         let mut q = Qualifiers::default();
         let mut m = M::new();
